@@ -86,8 +86,8 @@ CLAIMED["C05"] = ("model_checking",
   "Trusted: TLC, harness/project.go; canary bytes are the sensor for stray stores (memory safety in general is outside TLA+). Values per pair are sampled.",
   "DESIGN.md section 6 C05")
 CLAIMED["C10"] = ("model_checking",
-  "TLA+ Bank module (arenas, growth, string store, pool, close/reuse; Disjoint, ZeroAtBirth, IntactUntilClosed) model-checked; recorded bank operation sequences and retained-record reads trace-validated by the Trace_Bank state machine (live set + expected content hashes)",
-  "TLC checks the bank design exhaustively (2 banks x 2 types, arenas growing 1-2-4, 8 operations). Real sequences of 60 (400) operations over up to 4 open banks through the public surface are replayed: every allocation must be zero, address ranges (rank-compressed) of live allocations of unclosed banks pairwise disjoint, contents unchanged except by their owner; and ReadFile runs with every record retained and banks closed in a seeded order while reading continues are re-projected at checkpoints and compared with the values written.",
+  "TLA+ Bank (arenas, growth, string store, close/reuse; Disjoint, ZeroAtBirth, IntactUntilClosed) and BankPool (explicit holders, the pool as a bag; PoolOnce; the double-put defect cfg must violate Disjoint) model-checked; recorded bank operation sequences and retained-record reads trace-validated by the Trace_Bank state machine (live set + expected content hashes)",
+  "TLC checks the bank design exhaustively (2 banks x 2 types, arenas growing 1-2-4, 8 operations). Real sequences of 60 (400) operations over up to 4 open banks through the public surface are replayed: every allocation must be zero, address ranges (rank-compressed) of live allocations of unclosed banks pairwise disjoint, contents unchanged except by their owner; and ReadFile runs with every record retained and banks closed in a seeded order while reading continues (also after a read the callback aborted, with payloads above 32 KiB, with few distinct strings and allocation-free records) are re-projected at checkpoints and compared with the values written; the identities of the banks held at the same time must be pairwise different (PoolOnce observed) and zone names of retained times must not change.",
   "Trusted: TLC, harness/project.go, unsafe reads of addresses and content hashes in harness/bank.go.",
   "DESIGN.md section 6 C10")
 CLAIMED["C11"] = ("exploration",
@@ -96,8 +96,8 @@ CLAIMED["C11"] = ("exploration",
   "Trusted: the Go runtime's collector as sensor (TLA+ cannot observe it); TLC; harness/project.go. Level claimed: exploration.",
   "DESIGN.md section 6 C11")
 CLAIMED["C12"] = ("model_checking",
-  "PlusCal model of the three locks and the maps they protect (MutualExclusion, LookupSeesLatest, TzCanonical) model-checked; gate enforcement through hooks inside the critical sections, -race stress with sequenced section events replayed against the lock model, and per-goroutine results judged by the sequential reference (Trace_Conc)",
-  "TLC checks the lock design for 3 goroutines x 1 (2 thorough) operations. On the real code: (1) for each ordered pair of sections of one lock a goroutine is parked inside (blocked in the hook) and a second is sent to the other section; an arrival that the model forbids is a violation; (2) 10 (40) rounds of 12-32 goroutines re-parsing timestamps with shared zone offsets, distinct results judged; (3) 3 (20) race-detector runs of 8-16 goroutines with mixed workloads (shared codec, codec construction, registration, whole-file reads, banks closed on other goroutines): section enter/leave events sequenced inside the sections must be a behaviour of the lock model, every shared-codec round trip and timestamp must equal the sequential reference, and a race report whose access stack runs through the library is a violation.",
+  "PlusCal model of the three locks and the maps they protect (MutualExclusion, LookupSeesLatest, TzCanonical) and RWLockBuild (writer-preferring RWMutex x recursive builder x Register: deadlock-free, terminates; the hold-across-build defect cfg must deadlock) model-checked; gate enforcement through hooks inside the critical sections, -race stress with sequenced section events replayed against the lock model, and per-goroutine results judged by the sequential reference (Trace_Conc)",
+  "TLC checks the lock design for 3 goroutines x 1 (2 thorough) operations. On the real code: (1) for each ordered pair of sections of one lock a goroutine is parked inside (blocked in the hook) and a second is sent to the other section; an arrival that the model forbids is a violation; (2) 10 (40) rounds of 12-32 goroutines re-parsing timestamps with shared zone offsets, distinct results judged; (3) 3 (20) race-detector runs of 8-16 goroutines with mixed workloads (shared codec, codec construction, registration, whole-file reads, banks closed on other goroutines): section enter/leave events sequenced inside the sections must be a behaviour of the lock model, every shared-codec round trip and timestamp must equal the sequential reference, and a race report whose access stack runs through the library is a violation; (4) gate experiments and a build-vs-Register probe have time limits (a deadlock is a violation), (5) bank-pool hammer in fast children after a very large record.",
   "Trusted: TLC, the Go race detector as sensor, harness/project.go. Interleavings are enforced at hook granularity and explored by stress, not enumerated at instruction level.",
   "DESIGN.md section 6 C12")
 CLAIMED["C14"] = ("model_checking",
